@@ -177,6 +177,54 @@ class C16Bounded(Bounded):
                     pass
                 if events or os.path.exists(marker + "_cmd"):
                     fails.append({"text": f"template {payload[:60]!r} in {list(doc)[0]} {'from a template directory' if 'path' in str(doc) else 'inline'}: a command was run during conversion ({events[:2]})", "input": ["template sandbox", pi_, list(doc)[0]]})
+        # a vars path that runs THROUGH a symlinked directory inside the allowed directory is judged by where the file really is
+        outside = os.path.join(root, "outside")
+        os.makedirs(outside, exist_ok=True)
+        open(os.path.join(outside, "v.py"), "w").write(f"open({marker + '_linked'!r}, 'w').write('x')\nvars = {{}}\n")
+        try:
+            os.symlink(outside, os.path.join(root, "vars", "linkdir"))
+            os.symlink(os.path.join(outside, "v.py"), os.path.join(root, "vars", "linkfile.py"))
+            links = True
+        except OSError:
+            links = False
+        if links:
+            for vf in (os.path.join(root, "vars", "linkdir", "v.py"), os.path.join(root, "vars", "linkfile.py"), os.path.join(root, "vars", "..", "outside", "v.py")):
+                for kind in ("postprocessing", "finalizers"):
+                    ev += 1
+                    nontriv += 1
+                    if os.path.exists(marker + "_linked"):
+                        os.unlink(marker + "_linked")
+                    try:
+                        ProcessingPipeline.from_dict({kind: [{"type": "template", "template": "x", "vars": vf}]}, allow_template_vars=True, vars_allowed_paths=(os.path.join(root, "vars"),))
+                    except (SigmaError, ValueError):
+                        pass
+                    if os.path.exists(marker + "_linked"):
+                        fails.append({"text": f"vars file {vf} (really {os.path.realpath(vf)}) was executed although only {os.path.join(root, 'vars')} is allowed", "input": ["symlink", os.path.relpath(vf, root), kind]})
+        # what an opted-in pipeline loaded from its vars file is not available to the templates of ANOTHER pipeline that names the same template file
+        tdir2 = os.path.join(root, "shared_templates")
+        os.makedirs(tdir2, exist_ok=True)
+        open(os.path.join(tdir2, "q.j2"), "w").write("{{ query }}{% if helper is defined %}{{ helper() }}{% endif %}")
+        hv = os.path.join(root, "vars", "helper.py")
+        open(hv, "w").write(f"def helper():\n    open({marker + '_helper'!r}, 'w').write('x')\n    return ''\nvars = {{'helper': helper}}\n")
+        tplain = {"postprocessing": [{"type": "template", "template": "q.j2", "path": tdir2}]}
+        for order in ("opted-in first", "default first"):
+            ev += 1
+            nontriv += 1
+            if os.path.exists(marker + "_helper"):
+                os.unlink(marker + "_helper")
+            try:
+                mk_opt = lambda: ProcessingPipeline.from_dict({"postprocessing": [{"type": "template", "template": "q.j2", "path": tdir2, "vars": hv}]}, allow_template_vars=True, vars_allowed_paths=(os.path.join(root, "vars"),))
+                if order == "opted-in first":
+                    mk_opt()
+                    pd = ProcessingPipeline.from_dict(copy.deepcopy(tplain))
+                else:
+                    pd = ProcessingPipeline.from_dict(copy.deepcopy(tplain))
+                    mk_opt()
+                TextQueryTestBackend(pd).convert(SigmaCollection.from_yaml(RULE.replace("f|expand: '%ph%'", "f: v")))
+            except SigmaError:
+                pass
+            if os.path.exists(marker + "_helper"):
+                fails.append({"text": f"a pipeline loaded with default arguments ran a helper that only another, opted-in pipeline had loaded from its vars file (same template file, {order})", "input": ["shared template", order]})
         # an EMPTY list of allowed directories allows no directory (it is not "no restriction"), for every way of passing it and every item kind
         tdoc = lambda vf: {"postprocessing": [{"type": "template", "template": "{{ query }}", "vars": vf}, {"type": "nest", "items": []}],
                            "finalizers": [{"type": "template", "template": "{{ queries }}", "vars": vf}, {"type": "nested", "finalizers": [{"type": "template", "template": "x", "vars": vf}]}]}
